@@ -130,13 +130,21 @@ def _fil(wd, shard, ctx, res, only):
             # ---- kernel on the whole array (non-negative delay tables only: the kernel indexes isamp + delay)
             if not neg:
                 res.evaluations += 1
-                fold_ar = np.zeros(nbins * nints * nb, dtype=np.float32)
-                cnt_ar = np.zeros(nbins * nints * nb, dtype=np.int32)
+                # guard zones around the cube: an out-of-cube write lands there instead of corrupting the heap
+                PAD = 4 * nbins * nints * nb + 64
+                tot = nbins * nints * nb
+                fold_big = np.zeros(tot + 2 * PAD, dtype=np.float32)
+                cnt_big = np.zeros(tot + 2 * PAD, dtype=np.int32)
+                fold_ar, cnt_ar = fold_big[PAD : PAD + tot], cnt_big[PAD : PAD + tot]
+                kernel_ok = False
                 try:
                     kernels.fold(X.ravel(), fold_ar, cnt_ar, d.astype(np.int32), int(d.max()), TSAMP, period, accel, N, N, C, nbins, nints, nb, 0)
                     kc = cnt_ar.reshape(nints, nb, nbins)
                     ks = fold_ar.reshape(nints, nb, nbins)
-                    if int(cnt_ar.sum()) != (N - int(d.max())) * C:
+                    if cnt_big[:PAD].any() or cnt_big[PAD + tot :].any() or fold_big[:PAD].any() or fold_big[PAD + tot :].any():
+                        res.violation({"site": "kernels.fold", "symptom": "samples written outside the cube"}, base_case,
+                                      f"nchans={C} nbands={nb} nints={nints}: {int(cnt_big[:PAD].sum() + cnt_big[PAD + tot:].sum())} hits outside")
+                    elif int(cnt_ar.sum()) != (N - int(d.max())) * C:
                         res.violation({"site": "kernels.fold", "symptom": "hit counts do not sum to the number of samples folded"}, base_case,
                                       f"sum={int(cnt_ar.sum())} expected {(N - int(d.max())) * C}")
                     elif not np.array_equal(kc, K):
@@ -145,11 +153,14 @@ def _fil(wd, shard, ctx, res, only):
                     elif not np.array_equal(ks.astype(np.float64), S):
                         res.violation({"site": "kernels.fold", "symptom": "cell sums differ from the phase model"}, base_case, f"dm={dm} P={P}")
                     else:
+                        kernel_ok = True
                         res.outcome("kernel/ok")
                         if md > 0 or nints * nb > 1:
                             res.nontrivial += 1
                 except Exception as e:  # noqa: BLE001
                     res.violation({"site": "kernels.fold", "symptom": f"raised {type(e).__name__}"}, base_case, repr(e))
+                if not kernel_ok:
+                    continue  # do not drive the streaming fold through a kernel that already misplaces samples
             if (K == 0).any():
                 res.skip("empty_cell_in_reference")
                 continue
